@@ -56,6 +56,28 @@ def gen_cases(tier, seed, ctx):
             for v in range(256):
                 s = good[:i] + bytes([v]) + good[i+1:]
                 add(p, ht, s, None, kind='byte-value-sweep')
+    # histories on ONE context: the lead of file A is validated / read (and refused) first, then the bytes behind the descriptor
+    # are those of file B: the pins must be applied to B as they would be on a fresh context
+    built = []
+    for k, z in enumerate(files):
+        b = z.build(); pr = Z.parse(b)
+        built.append((os.path.join(ctx['work'], 'pin%d.zck' % k), b, pr['hash_type'], pr['header_digest'].hex().encode(), pr['lead'] + pr['header_len']))
+    sib = []
+    for k, z in enumerate(files[:4]):
+        z2 = Z.make([b'HELLO WORLD ' * 3, b'SECOND CHUNK'], comp='none' if k % 2 else 'zstd', full=k, chunk=1 if k == 2 else 3)
+        b2 = z2.build(); pr2 = Z.parse(b2)
+        p2 = os.path.join(ctx['work'], 'pinsib%d.zck' % k); open(p2, 'wb').write(b2)
+        sib.append((p2, b2, pr2['hash_type'], pr2['header_digest'].hex().encode(), pr2['lead'] + pr2['header_len']))
+    def swap(pa, pb, t, d, n, mode, kind):
+        cases.append(E.Case('p%d' % len(cases), 'PINSWAP %s %s %s %s %s %s' % (
+            pa, pb, '-' if t is None else t, '-' if d is None else hx(d), '-' if n is None else n, mode), dict(kind=kind)))
+    for k, (pa, ba, ht, dg, tot) in enumerate(built[:4]):
+        others = [sib[k]] + [x for j, x in enumerate(built) if j != k]
+        for (pb, bb, ht2, dg2, tot2) in others + [built[k]]:
+            for (t, d, n) in ((ht, dg, tot), (ht, dg, None), (ht, dg, tot2), (None, None, tot)):
+                swap(pa, pb, t, d, n, 'v', 'validate-then-swap')
+            # the lead of A is refused for its length, the error cleared, and B has that length
+            swap(pa, pb, ht, dg, tot2 if tot2 != tot else tot + 1, 'l', 'refused-then-swap')
     return cases
 
 def nontrivial(r):
@@ -65,5 +87,7 @@ def run(tier, seed, replay=None):
     rule = ("OPEN with pins on files of all four header checksum types + a detached header: correct pins in every subset x both setter "
             "orders x with/without zck_validate_lead, lower/upper/mixed case; pinned type -1..6; pinned length at 0, +-1, exact, 2^31, 2^63-1; "
             "every single-digit wrong-but-hex digest; digest strings of wrong lengths; ALL 256 byte values at every position of the "
-            "digest string (exhaustive for two files quick / all thorough); distinct by op line")
+            "digest string (exhaustive for two files quick / all thorough); PINSWAP = histories on one context (zck_validate_lead or a "
+            "refused / accepted zck_read_lead on file A, error cleared, then the descriptor holds file B - same file, a sibling with the "
+            "same header length and another digest, other files - and lead + header are read); distinct by op line")
     return E.standard_run(PROP, MODULES, gen_cases, tier, seed, replay, ASSUMPTIONS, rule, nontrivial=nontrivial)
